@@ -340,8 +340,27 @@ class Interp:
                 res.append((s, ("exc", c)))
                 continue
             for s2, b in self.branch(s, lib.truthy(self, s, c)):
+                self.narrow(node.test, s2, b)
                 res.extend(self.exec_block(node.body if b else node.orelse, s2))
         return res
+
+    def narrow(self, test, st, truth):
+        """refine `x is None` / `x is not None` tests on optional locals"""
+        if isinstance(test, ast.UnaryOp) and isinstance(test.op, ast.Not):
+            return self.narrow(test.operand, st, not truth)
+        if isinstance(test, ast.BoolOp):
+            if (isinstance(test.op, ast.And) and truth) or (isinstance(test.op, ast.Or) and not truth):
+                for v in test.values:
+                    self.narrow(v, st, truth)
+            return
+        if isinstance(test, ast.Compare) and len(test.ops) == 1 and isinstance(test.left, ast.Name) \
+                and isinstance(test.comparators[0], ast.Constant) and test.comparators[0].value is None \
+                and isinstance(test.ops[0], (ast.Is, ast.IsNot)):
+            name = test.left.id
+            v = st.env.get(name)
+            if isinstance(v, OptV):
+                is_none = truth if isinstance(test.ops[0], ast.Is) else not truth
+                st.env[name] = NONE if is_none else v.val
 
     def branch(self, st, cond):
         """fork on a z3 Bool; yields (state, python bool)"""
@@ -791,6 +810,7 @@ class Interp:
                 res.append((s, c))
                 continue
             for s2, b in self.branch(s, lib.truthy(self, s, c)):
+                self.narrow(node.test, s2, b)
                 res.extend(self.eval(node.body if b else node.orelse, s2))
         return res
 
